@@ -49,6 +49,13 @@ type File struct {
 	// end_header instead of just after the format line.
 	LongComment    int  `json:",omitempty"`
 	LongCommentEnd bool `json:",omitempty"`
+	// UVCountT: count type of the texcoord list ("" = uchar; int | uint)
+	UVCountT string `json:",omitempty"`
+	// Trailing > 0: one more element follows the last element polyform reads (what Blender, MeshLab
+	// and scanners append: edges, strips, cameras): 1 = "element edge K" with two int scalars and a
+	// uchar, 2 = "element tristrips K" with an int list named vertex_indices. TrailingN records.
+	Trailing  int `json:",omitempty"`
+	TrailingN int `json:",omitempty"`
 }
 
 // LongCommentText is the long comment line (no line ending): "comment " followed by printable ascii
@@ -126,6 +133,10 @@ type Opts struct {
 	// always below 60 KiB; binary records of 40..4800 bytes more) and the file has 1..6 vertices;
 	// independently, in about 1 file of 30, one header comment line of 300/1100/5000 bytes.
 	Wide bool
+	// UVCount (opt-in): the texcoord list may use a 4-byte count type. Trailing (opt-in): in about one
+	// file in five another element follows the last one polyform reads.
+	UVCount  bool
+	Trailing bool
 }
 
 // WideExtras is the least number of unrecognised scalars of a file of the wide class.
@@ -237,6 +248,13 @@ func Gen(t *rapid.T, o Opts) File {
 			f.Faces = append(f.Faces, fc)
 		}
 	}
+	if o.UVCount && f.HasUV {
+		f.UVCountT = rapid.SampledFrom([]string{"", "int", "uint"}).Draw(t, "uvCountT")
+	}
+	if o.Trailing && rapid.Uint64().Draw(t, "trailing")%5 == 0 {
+		f.Trailing = rapid.IntRange(1, 2).Draw(t, "trailingKind")
+		f.TrailingN = rapid.IntRange(1, 3).Draw(t, "trailingN")
+	}
 	f.CRLF = rapid.Bool().Draw(t, "crlf")
 	f.Comment = rapid.Bool().Draw(t, "comment")
 	f.MidComment = rapid.Bool().Draw(t, "midcomment")
@@ -293,7 +311,11 @@ func (f File) Encode() Encoded {
 	if f.HasFaces {
 		hdr.WriteString(fmt.Sprintf("element face %d%s", len(f.Faces), eol))
 		pi := "property list " + f.CountAlias + " " + f.IdxAlias + " " + f.IdxName + eol
-		pu := "property list uchar float texcoord" + eol
+		uvct := f.UVCountT
+		if uvct == "" {
+			uvct = "uchar"
+		}
+		pu := "property list " + uvct + " float texcoord" + eol
 		switch {
 		case f.UVFirst:
 			hdr.WriteString(pu + pi)
@@ -302,6 +324,12 @@ func (f File) Encode() Encoded {
 		default:
 			hdr.WriteString(pi)
 		}
+	}
+	switch f.Trailing {
+	case 1:
+		hdr.WriteString(fmt.Sprintf("element edge %d%sproperty int vertex1%sproperty int vertex2%sproperty uchar crease%s", f.TrailingN, eol, eol, eol, eol))
+	case 2:
+		hdr.WriteString(fmt.Sprintf("element tristrips %d%sproperty list uchar int vertex_indices%s", f.TrailingN, eol, eol))
 	}
 	if f.LongComment > 0 && f.LongCommentEnd {
 		hdr.WriteString(LongCommentText(f.LongComment) + eol)
@@ -362,7 +390,11 @@ func (f File) Encode() Encoded {
 			}
 		}
 		wu := func() {
-			writeScalar("uchar", float64(len(fc.UV)))
+			uvct := f.UVCountT
+			if uvct == "" {
+				uvct = "uchar"
+			}
+			writeScalar(uvct, float64(len(fc.UV)))
 			for _, u := range fc.UV {
 				if ascii {
 					body.WriteString(" ")
@@ -390,6 +422,32 @@ func (f File) Encode() Encoded {
 			tok(true)
 		}
 		enc.FaceRecEnds = append(enc.FaceRecEnds, enc.HeaderLen+body.Len())
+	}
+	for r := 0; r < f.TrailingN && f.Trailing > 0; r++ {
+		switch f.Trailing {
+		case 1:
+			writeScalar("int", float64(256*(r+1)))
+			if ascii {
+				body.WriteString(" ")
+			}
+			writeScalar("int", float64(512*(r+1)+1))
+			if ascii {
+				body.WriteString(" ")
+			}
+			writeScalar("uchar", float64(7+r))
+		case 2:
+			writeScalar("uchar", 4)
+			for k := 0; k < 4; k++ {
+				if ascii {
+					body.WriteString(" ")
+				}
+				writeScalar("int", float64(256*(k+1)+r))
+			}
+		}
+		if ascii {
+			body.WriteString("\n")
+			tok(true)
+		}
 	}
 	enc.Bytes = append([]byte(hdr.String()), body.Bytes()...)
 	return enc
